@@ -37,20 +37,24 @@ impl DecodeContext {
 
         Ok(buf.into_boxed_slice())
     }
-    /// Allocates a boxed slice of bytes with the given length, reading exactly
-    /// that many bytes from the provided reader.
-    pub fn alloc_read<R: Read + ?Sized>(
-        &mut self,
-        len: u64,
-        r: &mut R,
-    ) -> Result<Box<[u8]>, DecodingError> {
+    /// Allocates an empty buffer with room for `len` bytes, to be filled by
+    /// [`Self::read_into`]. This does not touch any reader.
+    pub fn alloc_read_buffer(&mut self, len: u64) -> Result<Vec<u8>, DecodingError> {
         let len_usize = usize::try_from(len).map_err(|_| DecodingError::MemoryLimitExceeded)?;
         self.reserve_bytes(len_usize)?;
 
         let mut buf = Vec::new();
         buf.try_reserve_exact(len_usize)
             .map_err(|_| DecodingError::MemoryLimitExceeded)?;
-
+        Ok(buf)
+    }
+    /// Reads exactly `len` bytes from the provided reader into a buffer
+    /// allocated by [`Self::alloc_read_buffer`].
+    pub fn read_into<R: Read + ?Sized>(
+        mut buf: Vec<u8>,
+        len: u64,
+        r: &mut R,
+    ) -> Result<Box<[u8]>, DecodingError> {
         let copied = std::io::copy(&mut r.take(len), &mut buf)?;
         if copied < len {
             return Err(DecodingError::Io(std::io::Error::new(
